@@ -874,6 +874,7 @@ pub fn run(specs: &[CrashSpec], threads: usize, max_states_per_history: usize, o
             // model at this crash point
             let mut m = RefStore::fresh(spec.wcfg.allow_duplicates);
             m.max_data = spec.wcfg.max_data_in_blob;
+            m.max_size = spec.wcfg.max_blob_size;
             for i in &acked {
                 oracle::apply_model(&mut m, spec.history[*i], &value_tag_of(*i, &spec.history[*i]), 4);
             }
